@@ -10,6 +10,12 @@ NULL since the overflow guard was added; corpus/spool/calloc_overflow.ops).
 
 Sparse observation mode: `obs=sparse` on the constructor line suppresses the content sweep after every
 operation (a third of the histories of every focus); `observe` prints it on demand.
+
+Layouts: `layout=tight hdr=8|0` on the constructor line (half of the histories of every stream) puts the
+header buffer -- exactly cc_static_pool_struct_size() bytes at an address = hdr (mod 16) -- and the
+data buffer into ONE block, the data buffer immediately behind the header (with odd `off=` values too).
+`giant=1` (scale stream) makes the region 5-9 GiB of reserved, never touched address space: requests
+and used counts beyond 2^32; those histories only malloc / free / pool_reset (never calloc).
 """
 import itertools
 
@@ -62,16 +68,71 @@ def mix_sparse(hists, rng=None):
     return out
 
 
+def mix_layout(hists, rng=None):
+    """half of the histories in the tight layout, header at 8 or 0 (mod 16)"""
+    out = []
+    for i, h in enumerate(hists):
+        k = rng.randrange(4) if rng is not None else i % 4
+        if k == 0 and "giant=" not in h[0]:
+            h = [h[0] + " layout=tight hdr=8"] + h[1:]
+        elif k == 2 and "giant=" not in h[0]:
+            h = [h[0] + " layout=tight hdr=0"] + h[1:]
+        out.append(h)
+    return out
+
+
+GiB = 2**30
+
+
+def giant_histories(rng, count):
+    """pools of 5-9 GiB over reserved address space: malloc / free / pool_reset only"""
+    out = []
+    for k in range(count):
+        N = rng.choice([5, 6, 8, 9]) * GiB + rng.choice([0, 0, 1, -1, 4095])
+        off = rng.choice([0, 1, 8, 4096])
+        sim = Sim(N)
+        ops = [f"new size={N} off={off} giant=1"]
+        # first get the used count to 2^32 or beyond in one or a few steps
+        lead = rng.choice([[2**32], [2**32 + 1], [2**32 - 1, 1], [2**31, 2**31], [2**31, 2**31, 1], [3 * GiB, GiB], [2**32 + 5]])
+        for sz in lead:
+            ops.append(f"malloc {sz}"); sim.alloc(sz)
+        for i in range(rng.randint(10, 40)):
+            remaining = N - sim.free
+            r = rng.random()
+            if r < 0.6:
+                sz = rng.choice([0, 1, 8, GiB, GiB + 1, 2**31, 2**32, 2**32 + 1, remaining, remaining + 1,
+                                 max(remaining - 1, 0), max(remaining - 2**32, 0), N, N - 2**32, N - 2**32 + 1,
+                                 2**32 - sim.free % 2**32, 2**63, SIZE_MAX])
+                ops.append(f"malloc {sz}"); sim.alloc(sz)
+            elif r < 0.8:
+                a = rng.choice([sim.high, sim.high, sim.high % 2**32, sim.free, 0])
+                ops.append(f"free off={a}"); sim.release_off(a)
+            elif r < 0.9 and sim.n:
+                ops.append(f"free idx={sim.n - 1}")
+                ops.append(f"free off={sim.high}"); sim.release_off(sim.high)
+            else:
+                ops.append("pool_reset"); sim.reset()
+                if rng.random() < 0.7:
+                    sz = rng.choice(lead + [N, N - 1])
+                    ops.append(f"malloc {sz}"); sim.alloc(sz)
+        ops.append("destroy")
+        out.append(ops)
+    return out
+
+
 class SpoolGen:
     name = "spool"
 
     def small_scope(self, tier, focus=None):
-        return mix_sparse(self._small_scope(tier, focus))
+        return mix_sparse(mix_layout(self._small_scope(tier, focus)))
 
     def random(self, rng, n, tier, focus=None):
-        return mix_sparse(self._random(rng, n, tier, focus), rng)
+        return mix_sparse(mix_layout(self._random(rng, n, tier, focus), rng), rng)
 
     def scale(self, rng, tier):
+        return mix_layout(self._scale(rng, tier), rng) + mix_sparse(giant_histories(rng, 6 if tier == "quick" else 40), rng)
+
+    def _scale(self, rng, tier):
         """few LONG histories: thousands of malloc/calloc/free(roll-back)/reset cycles on pools of a few
         hundred to a few thousand bytes, mixed sizes incl. 0 and exact fit; sparse observation, the region
         printed as a checksum (`phys=quiet`), `observe` every few hundred operations"""
